@@ -437,16 +437,9 @@ fn analyze_inner(view: &View, cfg: &Cfg, script: &Script, quirks: Quirks, a: &mu
     };
     a.carrier = Some(carrier);
 
-    // in the folded case the properties do not rank a URL occurrence against a body occurrence of one X-Amz-* name
-    let split_amz = |name: &[u8]| -> bool {
-        if !a.folded {
-            return false;
-        }
-        let u = a.url_pairs.as_ref().map(|p| p.iter().any(|(n, _)| n == name)).unwrap_or(false);
-        let b = a.body_pairs.as_ref().map(|p| p.iter().any(|(n, _)| n == name)).unwrap_or(false);
-        u && b
-    };
-
+    // In the folded case body parameters count "exactly as if they had been appended to the URL query" (C12), so a
+    // URL occurrence of an X-Amz-* name precedes a body occurrence and "the first value" (C19) is the URL's: `merged`
+    // is URL pairs followed by body pairs.
     let credential_b: Vec<u8>;
     let signature_b: Vec<u8>;
     let signed_b: Vec<u8>;
@@ -503,18 +496,9 @@ fn analyze_inner(view: &View, cfg: &Cfg, script: &Script, quirks: Quirks, a: &mu
             token_b = first_header(view, b"x-amz-security-token").map(|v| canon_header_value(v));
         }
         Carrier::Query => {
-            if split_amz(b"X-Amz-Algorithm") {
-                return dc(Stage::Algorithm, "X-Amz-Algorithm both in URL and folded body");
-            }
             // ---- 4. algorithm
             if alg_param.unwrap() != ALG {
                 return rej(Stage::Algorithm, Kind::MissingAuthenticationToken, Discr::Has("missing Authentication Token"));
-            }
-            for n in [&b"X-Amz-Credential"[..], b"X-Amz-Signature", b"X-Amz-SignedHeaders", b"X-Amz-Date", b"X-Amz-Security-Token"]
-            {
-                if split_amz(n) {
-                    return dc(Stage::MissingParams, "X-Amz-* parameter both in URL and folded body");
-                }
             }
             let c = first_param(&merged, b"X-Amz-Credential");
             let s = first_param(&merged, b"X-Amz-Signature");
